@@ -5,7 +5,8 @@ Hand transcription of `uint64.go`, `uint128.go`, `uint256.go` (every exported me
 constructors of `unint.go`.  Limbs are `Nat`s below `W = 2^64`
 (well-formedness is the predicate `WF`); `math/bits` primitives are modelled by their documented
 arithmetic meaning (trusted base).  `log.Panicf` is the outcome `.error ()`.  `log.Warnf` has no
-effect on the returned value and is not modelled.
+effect on the returned value; the number of warnings a call logs is a separate outcome component
+(`…Warns`, last section).
 -/
 namespace ObiVerif.Fp
 
